@@ -464,6 +464,7 @@ def main():
 
 
 def write_evidence(pid, tier, seed, cfg, names, discharged, axioms, cases, tags, wall, nviol, notes, kf=()):
+    tags = tags if isinstance(tags, dict) else {}
     triv = re.compile(cfg.get('trivial_tag', r'^$'))
     distinct = set()
     for fam, line, v in cases:
